@@ -82,12 +82,20 @@ def worker(job):
             g = real.Grammar.from_string(text, recognizers=recognizers, ignore_case=job["ic"])
     except Exception as e:  # noqa: BLE001  (e.g. two string terminals with the same text: not a configuration)
         return [{"skip": "%s: %s" % (type(e).__name__, str(e)[:80])}]
-    for kind, ld in (("lr", True), ("lr", False), ("glr", False), ("glr", True)):
+    pre = None
+    for kind, ld in (("lr", True), ("lr", False), ("glr", False), ("glr", True), ("glr-precomputed-table", False)):
         try:
             with real.guard(5), real.quiet():
-                cls = real.GLRParser if kind == "glr" else real.Parser
-                kw = {"build_tree": True} if kind == "lr" else {}
-                parser = cls(g, consume_input=False, lexical_disambiguation=ld, **kw)
+                if kind == "glr-precomputed-table":
+                    # the GLR default (lexical disambiguation off) must also hold when the table is handed in precomputed
+                    parser = real.GLRParser(g, table=pre.table, consume_input=False)
+                    kind = "glr"
+                else:
+                    cls = real.GLRParser if kind == "glr" else real.Parser
+                    kw = {"build_tree": True} if kind == "lr" else {}
+                    parser = cls(g, consume_input=False, lexical_disambiguation=ld, **kw)
+                    if kind == "glr" and not ld:
+                        pre = parser
         except Exception as e:  # noqa: BLE001
             out.append({"skip": "build %s: %s" % (type(e).__name__, str(e)[:80])})
             continue
@@ -131,7 +139,8 @@ def worker(job):
             obs = {"kind": "syntax", "toks": [], "vlen": 0}
         except Exception as e:  # noqa: BLE001
             obs = {"kind": "exc:" + type(e).__name__, "toks": [], "vlen": 0}
-        out.append({"name": "%s [%s,ld=%d%s] @ %r" % (text.replace("\n", " ").strip(), kind, ld, ",ignore_case" if job["ic"] else "", INPUT),
+        out.append({"name": "%s [%s,ld=%d%s%s] @ %r" % (text.replace("\n", " ").strip(), kind, ld, ",ignore_case" if job["ic"] else "",
+                                                           ",table=precomputed" if parser is not pre and kind == "glr" and not ld else "", INPUT),
                     "gtext": text, "recs": recs, "ic": job["ic"], "parser": kind, "ld": ld, "origin": job["origin"],
                     "terms": terms, "real_order": [k.name for k in keys], "real_flags": flags, "obs": obs})
     return out
